@@ -702,6 +702,27 @@ func genReads(r *Rng, pats []string, methods []string) []string {
 	return ops
 }
 
+// genTruncMethods: the method list of a Truncate: usually one method; sometimes several, in or out of registration
+// order, with a duplicate, or with a method that has no routes
+func genTruncMethods(r *Rng, methods []string) string {
+	if r.Chance(60) {
+		return Pick(r, methods)
+	}
+	k := 2 + r.Intn(3)
+	ms := make([]string, k)
+	for i := range ms {
+		if r.Chance(85) {
+			ms[i] = Pick(r, methods)
+		} else {
+			ms[i] = Pick(r, methodPool)
+		}
+	}
+	if r.Chance(30) {
+		ms[k-1] = ms[0]
+	}
+	return strings.Join(ms, "+")
+}
+
 func genOps(r *Rng, tier string, n int, emit func(string)) {
 	for c := 0; c < n; c++ {
 		cr := r.Fork()
@@ -805,7 +826,7 @@ func genOps(r *Rng, tier string, n int, emit func(string)) {
 					if cr.Chance(30) {
 						ops = append(ops, "T,")
 					} else {
-						ops = append(ops, "T,"+Pick(cr, methods))
+						ops = append(ops, "T,"+genTruncMethods(cr, methods))
 					}
 				default:
 					ops = append(ops, genProbe(cr, pool, methods))
@@ -819,13 +840,20 @@ func genOps(r *Rng, tier string, n int, emit func(string)) {
 		default:
 			// fan-out above and below the 50-child search switch
 			m := methods[0]
-			k := 40 + cr.Intn(35)
+			// one node with k children, each with its own first byte (a radix node has one child per first byte)
+			const fanAlphabet = "0123456789abcdefghijklmnopqrstuvwxyzABCDEFGHIJKLMNOPQRSTUVWXYZ-_~"
+			k := 44 + cr.Intn(len(fanAlphabet)-44+1)
 			base := Pick(cr, []string{"/", "/n/", "/{x}/"})
-			for i := 0; i < k; i++ {
-				addH(m, base+string(rune('0'+i/26))+string(rune('a'+i%26))+Pick(cr, []string{"", "/x", "/{y}"}))
+			for _, i := range cr.Perm(k) {
+				addH(m, base+string(fanAlphabet[i])+Pick(cr, []string{"", "a", "ab"})+Pick(cr, []string{"", "/x", "/{y}"}))
 			}
 			addH(m, base+"{p}")
 			addH(m, base+"*{q}")
+			// probes at the wide node: segments starting with '*', '{', a static sibling's first byte, and plain values
+			ib := strings.ReplaceAll(base, "{x}", "v")
+			for _, v := range []string{"*abc", "*", "{p}", "0a", "0ax", "1", "zz", "*abc/x", "0a/x", "Z", "~", "-a", "_", "!", "\x7f"} {
+				famProbes = append(famProbes, "L,"+m+",_,"+hx(ib+v))
+			}
 			for i := 0; i < 10; i++ {
 				ops = append(ops, "D,"+m+","+hx(Pick(cr, pats)))
 				ops = append(ops, genProbe(cr, pats, methods))
